@@ -1,7 +1,9 @@
 CONSTANTS
   MaxLen = 6
   MaxWidth = 8
+  Classes = {1, 2, 3, 4, 5, 6, 7}
   Orig = FALSE
+  RunCut = TRUE
 SPECIFICATION Spec
 INVARIANT Holds
 CHECK_DEADLOCK FALSE
